@@ -5,7 +5,8 @@
 (*            without own members; C extends a class outside the jar whose *)
 (*            super type declares the member; A + inner class A$I; a chain *)
 (*            of three); module rows are placed in a module-info class     *)
-(*   cm       class renames: none, same package, package move, inner class *)
+(*   cm       class renames: none, same package, package move, a swap and a  *)
+(*            shift (target names that are source names too), inner class   *)
 (*            following / not following its outer class, inner class       *)
 (*            flattened, a rename onto a name present in the jar           *)
 (*   mm       member renames: none, A's, A's + B's shadowing method, the   *)
@@ -65,6 +66,8 @@ ClassMaps == <<
     (I :> "s/Flat"),
     (B :> "p/Y") @@ (C :> "q/Z") @@ (T :> "y/T2"),
     (A :> "p/B"),                                   \* onto a name the jar may hold
+    (A :> "p/B") @@ (B :> "p/A"),                   \* a swap: the answer for a name is itself a name the map renames (asking twice differs from asking once)
+    (A :> "p/B") @@ (B :> "p/Y") @@ (I :> "p/B$I"), \* a shift a -> b -> y, the inner class following its outer class
     (A :> "r/X") @@ (B :> "r/Y") @@ (I :> "r/X$J") @@ (C :> "r/Z") @@ (L :> "y/L2") @@ (T :> "y/T2") @@ (PI :> "r/package-info") >>
 (* thorough tier: every combination of a choice for A, for B and for the inner class *)
 ClassMapSet ==
